@@ -19,7 +19,7 @@ import sys
 from typing import Dict, List, Mapping, Tuple
 
 from jsonargparse import ActionConfigFile, ArgumentParser, Namespace
-from jsonargparse._common import parser_context_vars
+from jsonargparse._common import load_value_mode, parser_context_vars
 from jsonargparse._typehints import sub_defaults
 from jsonargparse._util import current_path_dir
 
@@ -69,6 +69,10 @@ def untyped(p):
     p.add_argument("maybe", nargs="?", help="optional positional")
     p.add_argument("source", help="where from")
     p.add_argument("targets", nargs="+", help="where to")
+
+
+class ForeignNamespace(argparse.Namespace):
+    """the Namespace class some other library has put into argparse"""
 
 
 class Color(enum.Enum):
@@ -239,6 +243,13 @@ def run(case, base, idx):
     snap = deep(arg)
     known = {id(a) for a in p._actions}   # parse_args may add helper actions lazily; they are not declarations
     d_before = declared(p)
+    token = None
+    if case.get("preset"):
+        # a history: somebody else has installed another Namespace class in argparse, an enclosing context has set
+        # load_value_mode, the environment has one more variable
+        argparse.Namespace = ForeignNamespace
+        token = load_value_mode.set("yaml")
+        os.environ["C08_PRESET"] = "1"
     g_before = read_globals()
     ok, exc = True, ""
     try:
@@ -254,6 +265,9 @@ def run(case, base, idx):
     except OSError:
         pass
     argparse.Namespace = ORIG_ARGPARSE_NS
+    if token is not None:
+        load_value_mode.reset(token)
+        os.environ.pop("C08_PRESET", None)
     d_after = declared(p, known)
     shutil.rmtree(work, ignore_errors=True)
     return {"ok": ok, "globals": gl, "args_same": deep(arg) == snap, "defaults_same": d_before == d_after,
